@@ -435,6 +435,14 @@ async fn drive<R: Router<K, FJob>, Q: Queue<K, FJob>>(cfg: Cfg, router: R, queue
             sh.log(FEv::Barrier { depth: d, active: a, capacity: c, live_children: factory.get_children().len(), expect_pool });
         }
     }
+    // a long idle period: with healthy workers nothing that was accepted may still be waiting afterwards
+    if factory.get_status() == ActorStatus::Running && !drained {
+        tokio::time::sleep(Duration::from_secs(20)).await;
+        if factory.get_status() == ActorStatus::Running {
+            let _ = factory.call(FactoryMessage::GetQueueDepth, None).await;
+            sh.log(FEv::Op(format!("quiesced pool={expect_pool} live={}", factory.get_children().len())));
+        }
+    }
     if cfg.end_with_drain {
         if !drained {
             sh.log(FEv::Op("drain".into()));
